@@ -281,9 +281,14 @@ M_RelayOnlyToPeer(P, a, O, Q) ==
 \* an event of the right call, from the right role, sent by a session attached to the topic, IS relayed to the peer
 \* (whether the server also honours ringing / accept of a callee session that is NOT attached - it does today, through the hub -
 \* is not stated by the property: no obligation either way here; the binding covers what the code does)
-M_Relayed(P, a, O, Q) ==
+\* An acceptance whose replacement the store refused to save (X.fault) did not happen: then NOTHING of it may be visible - the
+\* call is still being established (and, by timer_pending_exactly_while_unanswered, its timer is still pending).
+AcceptFailed(P, a, Q, X) == X.fault /\ IsCallNote(a) /\ a.event = EvAccept /\ ~(Q.call.active /\ Q.call.accepted /\ ~P.call.accepted)
+M_Relayed(P, a, O, Q, X) ==
+  If(AcceptFailed(P, a, Q, X) => NoTrace(P, O, Q), "Relayed:failed_acceptance_leaves_no_trace")
+  \cup
   IF ~(IsCallNote(a) /\ a.t = "p12" /\ a.s \in P.live /\ P.call.active /\ a.seq = P.call.seq /\ a.s \in P.att) THEN {} ELSE
-  If(a.event \in {EvRinging, EvAccept} /\ ~P.call.accepted /\ Actor(a) # P.call.origUid
+  If(a.event \in {EvRinging, EvAccept} /\ ~P.call.accepted /\ Actor(a) # P.call.origUid /\ ~AcceptFailed(P, a, Q, X)
        => \E i \in O.infos : i.to = P.call.orig /\ i.ev = a.event /\ i.via = "topic", "Relayed:ringing_accept_reach_the_caller_session")
   \cup If(a.event \in Exchange /\ P.call.accepted /\ a.s \in P.call.parties
        => \A x \in (P.call.parties \ {a.s}) \cap P.live : \E i \in O.infos : i.to = x /\ i.ev = a.event /\ i.via = "topic",
@@ -365,7 +370,7 @@ M_NewCallAfterEnd(P, a, O, Q) ==
   If(MayStart(P, a) /\ a.s \in P.live => O.code = 202 /\ Started(P, Q) /\ Q.call.seq = Len(P.msgs) + 1, "NewCallAfterEnd:idle_topic_accepts_an_invitation")
 
 MonitorsX(P, a, O, Q, X) ==
-  M_InviteGate(P, a, O, Q) \cup M_RoleGate(P, a, O, Q) \cup M_RelayOnlyToPeer(P, a, O, Q) \cup M_Relayed(P, a, O, Q)
+  M_InviteGate(P, a, O, Q) \cup M_RoleGate(P, a, O, Q) \cup M_RelayOnlyToPeer(P, a, O, Q) \cup M_Relayed(P, a, O, Q, X)
   \cup M_StaleIgnored(P, a, O, Q) \cup M_EndsExactlyOnce(P, a, O, Q, X) \cup M_Replacements(P, a, O, Q) \cup M_NewCallAfterEnd(P, a, O, Q)
 Monitors(P, a, O, Q) == MonitorsX(P, a, O, Q, NoFault)
 =============================================================================
